@@ -1088,6 +1088,34 @@ func DeleteSegmentsForIndex(indexName string) {
 	removeSegmentsByIndexOrSegkeys(nil, indexName)
 }
 
+// Removes the open segment stores of index virtualTableName of organisation orgid, their
+// directories and their unrotated search metadata (and only those: other organisations may own
+// an index of the same name).
+func DeleteVirtualTableSegStoreOfOrg(virtualTableName string, orgid int64) {
+	segkeys := make([]string, 0)
+	allSegStoresLock.Lock()
+	for streamid, segstore := range allSegStores {
+		if segstore.VirtualTableName == virtualTableName && segstore.OrgId == orgid {
+			delete(allSegStores, streamid)
+			segkeys = append(segkeys, segstore.SegmentKey)
+			streamdir := getActiveBaseDirVTable(virtualTableName) + streamid + "/"
+			os.RemoveAll(streamdir)
+			fileutils.RecursivelyDeleteEmptyParentDirectories(streamdir)
+		}
+	}
+	allSegStoresLock.Unlock()
+	// time range and column names of the deleted unrotated segments must not outlive them
+	for _, segkey := range segkeys {
+		removeSegKeyFromUnrotatedInfo(segkey)
+	}
+}
+
+// Removes the rotated segments (segmeta entries and directories) of index indexName of organisation orgid.
+func DeleteSegmentsForIndexOfOrg(indexName string, orgid int64) {
+	segbaseDirs := removeSegmetasOfOrg(nil, indexName, &orgid)
+	RemoveSegBasedirs(segbaseDirs)
+}
+
 func RemoveSegMetas(segmentsToDelete map[string]*structs.SegMeta) map[string]struct{} {
 	segKeysToDelete := make(map[string]struct{})
 	for segkey := range segmentsToDelete {
